@@ -170,7 +170,30 @@ def run(ctx):
     dist = {}
     for test, stream in (("TestVerifC05Conn", "c05conn"), ("TestVerifC05Concurrent", "c05par"), ("TestVerifC05E2E", "c05e2e"), ("TestVerifC05Tcp", "c05tcp"),
                          ("TestVerifC05Wrap", "c05wrap"), ("TestVerifC05Wv", "c05wv"), ("TestVerifC05Splice", "c05sp")):
-        rc, out = ctx.run_harness(binp, test)
+        hang_path = os.path.join(ctx.out, stream + ".hang")
+        if os.path.exists(hang_path):
+            os.unlink(hang_path)
+        rc, out = ctx.run_harness(binp, test, timeout=1500)
+        if os.path.exists(hang_path):
+            # the watchdog outside the synctest bubble ended the process (wall clock / heap): one slow run is never a
+            # verdict — the same scenario is run ALONE in a fresh process
+            idx, why, desc = (open(hang_path, encoding="utf-8", errors="replace").read().rstrip("\n").split("\t") + ["", ""])[:3]
+            ctx.say(f"{stream}: scenario #{idx} did not finish ({why}); re-running it alone")
+            os.unlink(hang_path)
+            rc2, out2 = ctx.run_harness(binp, test, env_extra={"VERIF_C05_ONLY": idx}, timeout=600)
+            if os.path.exists(hang_path):
+                why2 = (open(hang_path, encoding="utf-8", errors="replace").read().split("\t") + ["", ""])[1]
+                ctx.report("the real connection handler does not return: the detection deadline no longer bounds the connection "
+                           f"(scenario #{idx} of {stream}, alone in a fresh process: {why2}; first run: {why}) — {desc[:1500]}",
+                           {"stream": stream, "scenario_index": idx, "scenario": desc,
+                            "replay": "VERIF_C05_ONLY=%s VERIF_SEED=%d %s -test.run ^%s$" % (idx, ctx.seed, "c05.test", test)})
+                ctx.cov.setdefault("hangs", []).append({"stream": stream, "scenario": idx, "confirmed": True})
+                continue
+            ctx.say(f"NO-EVIDENCE: scenario #{idx} of {stream} hit the watchdog ({why}) but completed when run alone — "
+                    "the machine is too slow or the harness leaks; no verdict")
+            ctx.cov.setdefault("hangs", []).append({"stream": stream, "scenario": idx, "confirmed": False})
+            ctx.finish(rule="watchdog: unconfirmed hang", evaluations=evaluations, distinct=len(distinct))
+            return 2
         ops, impl, model = (os.path.join(ctx.out, stream + "." + e) for e in ("ops", "impl", "model"))
         if rc != 0 or not os.path.exists(ops):
             ctx.say("HARNESS-FAILED", test, out[-3000:])
@@ -285,6 +308,10 @@ def run(ctx):
         "c05sp": {"sp.out.partial": 250, "sp.end.ok": 400, "sp.end.err": 200, "sp.end.short": 60,
                   "sp.ended-with-bytes-in-the-pipe": 160, "sp.step.cancelled-during-call": 60, "sp.in.e": 400},
     }
+    if "c05conn" in dist:
+        dist["c05conn"]["kind.*.tls-partial"] = sum(v for k, v in dist["c05conn"].items() if k.endswith(".tls-partial"))
+    floors["c05conn"].update({"kind.*.tls-partial": 60, "sniff.partial-hello-and-nothing-after-it": 40,
+                              "sniff.several-need-more-rounds": 20})
     low = {f"{st}:{k}": (dist.get(st, {}).get(k, 0), v) for st, fl in floors.items() for k, v in fl.items()
            if dist.get(st, {}).get(k, 0) < v}
     ctx.cov["generator_floors"] = floors
